@@ -63,10 +63,13 @@ pub fn run(ctx: &Ctx) -> i32 {
         key_extra: String::new(),
     };
     let mut rep = floatlayer::run(&cfg);
+    let huge = crate::checks::c01::huge_list(t == crate::framework::Tier::Thorough);
+    crate::checks::c01::huge_lengths("C02", &huge, 1.0, &mut rep);
+    rep.set("huge_lengths", Json::Arr(huge.iter().map(|x| Json::Int(*x as i64)).collect()));
     rep.set("pool_lengths", Json::Arr(pool_sel.iter().map(|x| Json::Int(x.0 as i64)).collect()));
     rep.set("lengths_beyond_2^16", Json::Arr(big.iter().map(|x| Json::Int(*x as i64)).collect()));
     rep.rule = format!(
-        "planners {{auto,scalar,sse,avx}} x {{f32,f64}} x {{fwd,inv}} x 4 entry points x every n in 0..={dn}: STRUCT alphabet (zero, ones, alternating, on-grid tones f in {{1,n/2,n-1}}, off-grid tone, spikes, 8-tone dense, ramp, wide dynamic range 2^+-30 / 2^+-200, three dense pseudo-random distributions) against an O(n^2) double-double reference, complete impulse basis for n <= {fb} and 22 positions x2 above; plus {pc} pool lengths up to {ph} with the closed-form members of the alphabet, plus one length of every plan class just above 2^16 and up to ~2^20 (lengths_beyond_2^16); oracle: relative L2 error <= 16*eps*log2(2n) (+ eps where the reference is the closed form of the unrounded input). Non-trivial: n >= 2 and non-zero input; distinct (config, n, entry, input) tuples are counted.",
+        "planners {{auto,scalar,sse,avx}} x {{f32,f64}} x {{fwd,inv}} x 4 entry points x every n in 0..={dn}: STRUCT alphabet (zero, ones, alternating, on-grid tones f in {{1,n/2,n-1}}, off-grid tone, spikes, 8-tone dense, ramp, wide dynamic range 2^+-30 / 2^+-200, three dense pseudo-random distributions) against an O(n^2) double-double reference, complete impulse basis for n <= {fb} and 22 positions x2 above; plus {pc} pool lengths up to {ph} with the closed-form members of the alphabet, plus one length of every plan class just above 2^16 and up to ~2^20 (lengths_beyond_2^16), plus the huge_lengths in the millions (three planners, two entry points, impulses e_0, e_1, e_(n/2+1), ones, alternating against directly evaluated spectra); oracle: relative L2 error <= 16*eps*log2(2n) (+ eps where the reference is the closed form of the unrounded input). Non-trivial: n >= 2 and non-zero input; distinct (config, n, entry, input) tuples are counted.",
         dn = dense_n,
         fb = cfg.full_basis_max,
         pc = pool_sel.len(),
